@@ -115,7 +115,7 @@ package rapid
 //@   ensures [new] r0 != nil && fresh(r0) && !r0.shuttingDown && r0.agentsAwaitingExit != nil && r0.runtimeDomainExited != nil
 
 // the execution context is wired to one registration service and its two flows
-//@ spec ctxWired(c *rapidContext) bool = typeis(c.registrationService, *core.registrationServiceImpl) && ref(c.registrationService) != 0 && regWired(c.registrationService.(*core.registrationServiceImpl)) && isInvokeFlow(c.invokeFlow) && isInitFlow(c.initFlow) && flowsDisjoint(c.initFlow.(*core.initFlowSynchronizationImpl), c.invokeFlow.(*core.invokeFlowSynchronizationImpl)) && c.shutdownContext != nil
+//@ spec ctxWired(c *rapidContext) bool = typeis(c.registrationService, *core.registrationServiceImpl) && ref(c.registrationService) != 0 && regWired(c.registrationService.(*core.registrationServiceImpl)) && isInvokeFlow(c.invokeFlow) && isInitFlow(c.initFlow) && flowsDisjoint(c.initFlow.(*core.initFlowSynchronizationImpl), c.invokeFlow.(*core.invokeFlowSynchronizationImpl)) && c.shutdownContext != nil && typeis(c.appCtx, *appctx.applicationContext) && ref(c.appCtx) != 0 && c.renderingService != nil
 //@ typeinv rapidContext c
 //@   inv ctxWired(c)
 
@@ -287,7 +287,6 @@ package rapid
 //@ spec initGates(c *rapidContext) *core.initFlowSynchronizationImpl = c.initFlow.(*core.initFlowSynchronizationImpl)
 //@ spec invokeGates(c *rapidContext) *core.invokeFlowSynchronizationImpl = c.invokeFlow.(*core.invokeFlowSynchronizationImpl)
 //@ func reinitialize
-//@   requires execCtx != nil && typeis(execCtx.appCtx, *appctx.applicationContext) && ref(execCtx.appCtx) != 0 && execCtx.renderingService != nil
 //@   ensures [no-recorded-error-or-runtime-identity] !has(ctxOf(execCtx.appCtx).m, appctx.AppCtxFirstFatalErrorKey) && !has(ctxOf(execCtx.appCtx).m, appctx.AppCtxRuntimeReleaseKey) && !has(ctxOf(execCtx.appCtx).m, appctx.AppCtxInvokeErrorTraceDataKey)
 //@   ensures [not-initialised] !execCtx.initDone
 //@   ensures [no-renderer] execCtx.renderingService.currentState == nil
@@ -296,7 +295,6 @@ package rapid
 //@   ensures [no-arrival-or-cancellation-on-invoke-gates] gateCleared(invokeGates(execCtx).runtimeReadyGate) && gateCleared(invokeGates(execCtx).runtimeResponseGate) && gateCleared(invokeGates(execCtx).agentReadyGate)
 
 //@ func (*rapidContext).Clear
-//@   requires r != nil && typeis(r.appCtx, *appctx.applicationContext) && ref(r.appCtx) != 0 && r.renderingService != nil
 //@   ensures [like-a-fresh-context] !r.initDone && regOf(r).runtime == nil && len(regOf(r).externalAgents.byName) == 0 && len(regOf(r).internalAgents.byName) == 0 && !has(ctxOf(r.appCtx).m, appctx.AppCtxFirstFatalErrorKey) && !has(ctxOf(r.appCtx).m, appctx.AppCtxRuntimeReleaseKey)
 
 // ---------------------------------------------------------------------------------------------
@@ -374,3 +372,19 @@ package rapid
 //@   requires c != nil && initRequest != nil && initRequest.EnvironmentVariables != nil
 //@   ensures [token-in-env-keys-in-service] r1 == nil ==> delta(EnvForInitCaching) == 1 && delta(EnvWithKeys) == 0 && delta(CredentialsStored) == 1 && lastarg(CredentialsStored, 1) == lastarg(EnvForInitCaching, 7) && lastarg(CredentialsStored, 2) == initRequest.AwsKey && lastarg(CredentialsStored, 3) == initRequest.AwsSecret && lastarg(CredentialsStored, 4) == initRequest.AwsSession
 //@   ensures [nothing-without-a-token] r1 != nil ==> delta(EnvForInitCaching) == 0 && delta(CredentialsStored) == 0
+
+// ---------------------------------------------------------------------------------------------
+// C05 / C15: reset: flows are cancelled before the handler mutex is taken; full teardown, then a new generation
+// ---------------------------------------------------------------------------------------------
+//@ event FullShutdown = call rapid.(*shutdownContext).shutdown
+//@ event HandlerMutexTaken = call sync.(*Mutex).Lock
+//@ event ResetHandled = call rapid.handleReset
+//@ event FlowsCancelledForReset = call core.(RegistrationService).CancelFlows when a1 == errResetReceived
+//@ func (*rapidContext).HandleReset
+//@   ensures [cancel-then-wait-for-the-running-handler-then-reset] delta(FlowsCancelledForReset) == 1 && delta(ResetHandled) == 1 && first(FlowsCancelledForReset) < first(ResetHandled) && lastarg(ResetHandled, 0) == r && lastarg(ResetHandled, 1) == reset
+
+//@ func handleReset
+//@   ensures [full-teardown-with-the-request's-deadline-and-reason] delta(FullShutdown) == 1 && lastarg(FullShutdown, 1) == execCtx && lastarg(FullShutdown, 2) == resetEvent.DeadlineNs && lastarg(FullShutdown, 3) == resetEvent.Reason
+//@   ensures [new-generation-after-the-teardown] execCtx.runtimeDomainGeneration == (old(execCtx.runtimeDomainGeneration) + 1) % 4294967296
+//@   ensures [runtime-done-only-for-timeout-or-failure] delta(EvInvokeRuntimeDone) == ite(resetEvent.Reason == "failure" || resetEvent.Reason == "timeout", 1, 0) && delta(EvInvokeRuntimeDoneSuccess) == 0 && (delta(EvInvokeRuntimeDone) == 1 ==> first(EvInvokeRuntimeDone) < first(FullShutdown) && lastarg(EvInvokeRuntimeDone, 1).Status == ite(resetEvent.Reason == "timeout", "timeout", lastarg(EvInvokeRuntimeDone, 1).Status))
+//@   ensures [timeout-status-says-timeout] resetEvent.Reason == "timeout" ==> lastarg(EvInvokeRuntimeDone, 1).Status == "timeout" && lastarg(EvInvokeRuntimeDone, 1).ErrorType == nil
